@@ -18,11 +18,17 @@ const (
 	Preemption CostModel = iota
 	// Deviation: every non-default choice costs 1 (delay bounding).
 	Deviation
+	// DataFree: data choices (operation sequences) are free, every scheduling
+	// deviation costs 1: "all sequences under the default schedule" at bound 0.
+	DataFree
 )
 
 func (c CostModel) String() string {
-	if c == Deviation {
+	switch c {
+	case Deviation:
 		return "deviation"
+	case DataFree:
+		return "data-free/deviation"
 	}
 	return "preemption"
 }
@@ -107,6 +113,12 @@ func costOf(model CostModel, p PointRec, choice int) int {
 		return 0
 	}
 	if model == Deviation {
+		return 1
+	}
+	if model == DataFree {
+		if p.Data {
+			return 0
+		}
 		return 1
 	}
 	if !p.Data && p.RunningEnabled {
